@@ -143,7 +143,11 @@ var rowNames = []string{"a", "b", "c", "d", "e", "f", "g", "h", "i", "j"}
 func namedRows(seqs ...string) rows {
 	r := make(rows, len(seqs))
 	for i, s := range seqs {
-		r[i] = row{rowNames[i], s}
+		if i < len(rowNames) {
+			r[i] = row{rowNames[i], s}
+		} else {
+			r[i] = row{fmt.Sprintf("s%d", i), s}
+		}
 	}
 	return r
 }
